@@ -21,7 +21,7 @@ ASSUMPTIONS = ["'too few names' means a list that cannot name a feature the tree
                "feature index + 1); any exception counts as a rejection",
                "generated names never contain the substrings ' <= ' or ' > ' nor line breaks"]
 
-name_alphabet = "abcXYZ019_ -.:%/é"
+name_alphabet = "abcXYZ019_ -.:%/é{}$()[]\\'\"#*+^|<>=&~`@!?,;"  # TeX-like, format-like, markup-like labels are legal names
 
 
 @st.composite
@@ -36,7 +36,7 @@ def tree_case(draw, large=False):
     s["max_leaves"] = draw(st.sampled_from([None, 8, 4] if not large else [None, 60, 25]))
     s["max_clusters"] = draw(st.sampled_from([3, 2, 5] if not large else [4, 8, 12]))
     d = s["d"]
-    names = draw(st.lists(st.text(alphabet=name_alphabet, min_size=1, max_size=8).map(str.strip).filter(lambda z: len(z) > 0),
+    names = draw(st.lists(st.text(alphabet=name_alphabet, min_size=1, max_size=8).map(str.strip).filter(lambda z: len(z) > 0 and " <= " not in z and " > " not in z),
                           min_size=d + 2, max_size=d + 2, unique=True))
     s["x"]["scale"] = draw(st.sampled_from([1.0, 1e-7, 1e5, 1e-3, 1.0, 1e-12]))
     return {"spec": s, "names": names, "mode": draw(st.sampled_from(["none", "exact", "longer", "minimal", "short", "array"])),
